@@ -221,6 +221,23 @@ def check_clip(spec, ctx):
         ctx.fail("the array returned by load_clip changed when another clip was loaded afterwards (results share a buffer)", spec, None, None, kind="result_aliased")
     if arr2 is not None and arr2.shape == arr.shape and np.shares_memory(np.asarray(arr2.values), np.asarray(arr.values)):
         ctx.fail("two load_clip results share memory", spec, None, None, kind="result_aliased")
+    # two threads loading two different files that carry the same relative name under two audio directories (two sites, one naming
+    # scheme): this load is suspended at lines inside the library while the other thread loads from the other directory
+    if spec["audio_dir"] and n_file <= 5000:
+        import soundfile as sf
+
+        dir_b = kw["audio_dir"] + "-site-b"
+        os.makedirs(dir_b, exist_ok=True)
+        info = sf.info(os.path.join(kw["audio_dir"], clip.recording.path))
+        sf.write(os.path.join(dir_b, str(clip.recording.path)), frames[::-1] if info.subtype in ("FLOAT", "DOUBLE") else np.round(frames[::-1] * 32768.0).astype(np.int16), info.samplerate, subtype=info.subtype)
+        ctx.interleave(
+            spec,
+            "load_clip(audio_dir=...)",
+            lambda: (np.asarray(audio.load_clip(clip, audio_dir=kw["audio_dir"]).values).tolist(), os.getcwd()),
+            lambda: (np.asarray(audio.load_clip(clip, audio_dir=dir_b).values).tolist(), os.getcwd()),
+            every=2,
+            max_pauses=32,
+        )
     if spec["rec"].get("dur_round"):
         # load_recording lays its time axis out from Recording.duration and refuses metadata that disagree with the file:
         # stated assumption of that function, not of load_clip
